@@ -702,6 +702,12 @@ with SqlImpl.impl_store.impl_manager as impl:
     def _xor(lhs, rhs):
         return lhs != rhs
 
+    @impl(ops.bool_invert)
+    def _invert(x):
+        # SQLAlchemy drops the type when it negates an AND / OR list, and with it the
+        # conversion of 0 / 1 to booleans on backends without a native BOOLEAN.
+        return sqa.type_coerce(~x, sqa.Boolean())
+
     @impl(ops.pos)
     def _pos(x):
         return x
